@@ -32,6 +32,12 @@ CONFIGS = {
                 pairs=3),
     # orders placed before the first bar (no clock, no price yet)
     "K0p": dict(lend=None, fee=(1, 2), liq=(25, 10), init=(("USD", 1000), ("BTC", 5)), bp=0, qp=2, pre_bar=True),
+    # pair precisions derived from the symbols' precisions (no set_pair_info), both 0
+    "K9s": dict(lend=None, fee=(1, 0), liq=(33, 0), init=(("USD", 2000), ("BTC", 30)), bp=0, qp=0, no_pair_info=True),
+    # infinite liquidity, no lending: zero-volume bars must still fill
+    "K20": dict(lend=None, fee=(1, 0), liq=None, init=(("USD", 1000), ("BTC", 5)), bp=0, qp=2),
+    # an initial balance that is not a multiple of the symbol precision (shortages of auto-borrow orders are then off-grid)
+    "K21": dict(lend=dict(req="0.5", isym="USD", period=10), fee=None, liq=None, init=(("USD", "300.005"), ("BTC", 1)), bp=0, qp=2),
     "K14": dict(lend=dict(req="0.5", isym="same", period=7, pct="2.5"), fee=(1, 0), liq=(25, 10),
                 init=(("USD", 500), ("BTC", 2)), bp=2, qp=2),
 }
@@ -111,6 +117,7 @@ def signature(prop, clause, a):
 def run_scenario(prop, sc, tier):
     exch.install_deterministic_ids()
     res = Result()
+    res.union_keys = True  # BFS shards of one configuration reach common states
     if sc[0] == "conf":
         _, name, depth, prefix = sc
         cfg = CONFIGS[name]
@@ -201,6 +208,8 @@ def report(prop, name, cfg, found, res):
     for hist, bad in found:
         for p, clause, detail in bad:
             sig = signature(p, clause, hist[-1])
+            if clause == "public-api-raises":
+                confirmed.add(sig)  # the observation functions themselves raise: nothing to compare between drivers
             if sig not in confirmed:
                 # every violation found with the fast driver is replayed through the public API before it is reported
                 for h in (hist[:-1], hist):
